@@ -32,7 +32,7 @@ ASSUMPTIONS = [
     "the reference formulas of _c01_ref are cross-checked against mc.refmodel's slow definitions for d <= 3",
 ]
 BOUNDS = {
-    "quick": "Q1,Q3,Q1u,Q1h: 17-rung ladder 1e-14..1 x 9 atol values 1e-13..1e-2; Q3g,Q3h,Q2,Q6: 8 rungs x 4 atol values; "
+    "quick": "Q1,Q3,Q1u,Q1h,Q1x (Pauli basis with X first): 17-rung ladder 1e-14..1 x 9 atol values 1e-13..1e-2; Q3g,Q3h,Q3x (Gell-Mann with lambda_1 first),Q2,Q6: 8 rungs x 4 atol values; "
              "Povm m=2..4, MProcess m=2,3; first and last element / first, second, last first-row column broken; "
              "mixed (atol_eq, atol_ineq) pairs over 3 values + None",
     "thorough": "all systems: half-decade ladder 1e-14..1 (31 rungs) x half-decade atol grid (23 values); every "
@@ -42,7 +42,7 @@ EXHAUSTIVE = {"quick": True, "thorough": True}
 CASE_TIMEOUT = 3600
 
 TYPES = ("State", "Povm", "Gate", "MProcess")
-ALL_TAGS = ("Q1", "Q1u", "Q1h", "Q3", "Q3g", "Q3h", "Q2", "Q6")
+ALL_TAGS = ("Q1", "Q1u", "Q1h", "Q1x", "Q3", "Q3g", "Q3h", "Q3x", "Q2", "Q6")
 DEFAULT_ATOL = 1e-13
 
 GRIDS = {
@@ -81,7 +81,7 @@ def ms_of(typ):
 def spec_of(tier, tag):
     if tier == "thorough":
         return "dense"
-    return "full" if tag in ("Q1", "Q3", "Q1u", "Q1h") else "reduced"
+    return "full" if tag in ("Q1", "Q3", "Q1u", "Q1h", "Q1x") else "reduced"
 
 
 # ---------------------------------------------------------------- families
